@@ -312,6 +312,16 @@ NATIVE_UNITS = {
                     "66 local times (epoch +- ns/ms, window widths, 2024, calendar limits, 2^k ns and ms with neighbours) x ~70 base times "
                     "each (window edges, the same modulo 2^32 / 2^63 / 2^64, 0, u64::MAX, i64::MAX)")],
         params={"quick": {}, "thorough": {}}),
+    "byte_arena": NativeUnit("byte_arena", "owning_iovec",
+        [("owning_iovec/src/byte_arena/mod.rs", os.path.join(KN, "byte_arena.rs"))],
+        [NativeTest("verif_native_read_n_scripts", ["C17"], "ByteArena::read_n",
+                    "the whole of read_n -- the unsafe alloc/release wrapper the Verus unit arena_read ASSUMES, around the proved retry loop "
+                    "-- on real arenas: at most max_attempts calls, never more than count bytes asked, no call after EOF / a hard error, "
+                    "Ok with EXACTLY the bytes delivered (in order) whenever something was delivered or EOF came first, Err(the last error) "
+                    "otherwise, count == 0 returns an empty slice without reading",
+                    "every script of <= 4 steps over {{deliver 1,3,5,8,13, Interrupted, EOF, hard error}} x counts {{0,1,2,7,8,9,64,4095,4096,4097,"
+                    "8192,70000}} (4-step scripts: counts 9 and 4096) x max_attempts 1..=5, fresh and used arena")],
+        params={"quick": {}, "thorough": {}}),
     "hcobs": NativeUnit("hcobs", "hcobs",
         [("hcobs/src/lib.rs", os.path.join(KN, "hcobs_find_stuff.rs"))],
         [NativeTest("verif_native_find_stuff_sequence_positions", ["C01", "C02", "C07", "C08"], "find_stuff_sequence",
@@ -434,6 +444,7 @@ PROPERTIES["C08"] = {
 
 PROPERTIES["C17"] = {
     "level": "model_checking",
+    "native_units": ["byte_arena"],
     "kani_units": ["owning_iovec"],
     "verus_units": ["arena_read", "hcobs"],
     "assumptions": [
